@@ -1,6 +1,8 @@
 import FuModel.Base.Wire
 import FuModel.Xargs.Read
+import FuModel.Xargs.Opts
 import FuModel.Pred.C05
+import FuModel.Pred.C04
 
 namespace FuModel.Drv.Xargs
 open FuModel.Wire FuModel.Xargs
@@ -70,6 +72,76 @@ def pred (req obs : List String) : Option Bool :=
       | some o => pure (FuModel.Pred.C05.predBd (UInt8.ofNat dv) cs.flatten o)
       | none => pure false
     else none
+  | _ => none
+
+end FuModel.Drv.Xargs
+
+namespace FuModel.Drv.Xargs
+open FuModel.Wire FuModel.Xargs
+
+def parseOpt (s : String) : Option Opt :=
+  match s.toList with
+  | ['x'] => some .x
+  | ['r'] => some .r
+  | ['0'] => some .null
+  | ['i'] => some (.repl none)
+  | 'n' :: v => (String.ofList v).toNat?.map .n
+  | 'L' :: v => (String.ofList v).toNat?.map .l
+  | 's' :: v => (String.ofList v).toNat?.map .s
+  | 'd' :: v => (String.ofList v).toNat?.map (fun b => .d (UInt8.ofNat b))
+  | 'I' :: v => (bytesOfHex (String.ofList v)).map .replI
+  | ['R', '-'] => some (.repl none)
+  | 'R' :: v => (bytesOfHex (String.ofList v)).map (fun r => .repl (some r))
+  | _ => none
+
+def parseOutcome (s : String) : Option Outcome :=
+  match s.toList with
+  | ['n', 'f'] => some .notFound
+  | ['c', 'r'] => some .cannotRun
+  | 'e' :: v => (String.ofList v).toNat?.map .exit
+  | 'k' :: v => (String.ofList v).toNat?.map .signal
+  | _ => none
+
+def showMain (r : MainResult) : String :=
+  "st=" ++ toString r.status ++ " " ++
+    (if r.argvs.isEmpty then "." else ";".intercalate (r.argvs.map (fun av => ",".intercalate (av.map hexOfBytes))))
+
+def handleRun (verb : String) (args : List String) : Option String :=
+  match verb, args with
+  | "xargs-run", [opts, cmd, input, script, sys] => do
+    let os ← (splitList opts).mapM parseOpt
+    let cmd ← bytesListOfHex cmd
+    let inp ← bytesOfHex input
+    let sc ← (splitList script).mapM parseOutcome
+    let sys ← sys.toNat?
+    pure (showMain (xargsMain os cmd inp sc sys))
+  | _, _ => none
+
+end FuModel.Drv.Xargs
+
+namespace FuModel.Drv.Xargs
+open FuModel.Wire FuModel.Xargs
+
+/-- observed `st=<n> <argvs>` -/
+def parseRunObs : List String → Option (Nat × List (List (List UInt8)))
+  | [st, av] => do
+    let n ← (st.drop 3).toString.toNat?
+    if !st.startsWith "st=" then none else
+    if av == "." then pure (n, []) else
+    let bs ← (av.splitOn ";").mapM (fun b => (b.splitOn ",").mapM bytesOfHex)
+    pure (n, bs)
+  | _ => none
+
+def predC04 (req obs : List String) : Option Bool :=
+  match req with
+  | ["xargs-run", opts, cmd, input, _script, sys] => do
+    let os ← (splitList opts).mapM parseOpt
+    let cmd ← bytesListOfHex cmd
+    let inp ← bytesOfHex input
+    let sys ← sys.toNat?
+    match parseRunObs obs with
+    | some (st, avs) => pure (FuModel.Pred.C04.pred os cmd inp sys st avs)
+    | none => pure false
   | _ => none
 
 end FuModel.Drv.Xargs
